@@ -108,7 +108,7 @@ def gen_op(rng: random.Random, cfg: dict, kind: str | None = None) -> dict:
             pos=[rng.random() for _ in range(3)], bogus_attrs=rng.random() < 0.15,
         )
         if inval:
-            op["invalid"] = rng.choice(["exists", "no_time", "no_track", "no_pos", "no_pos", "partial_pos", "id_overflow"])
+            op["invalid"] = rng.choice(["exists", "no_time", "no_track", "no_pos", "no_pos", "partial_pos", "id_overflow", "bad_pixels"])
     elif kind == "delete_node":
         cls = ["any", "any", "leaf", "root", "div_parent", "div_child", "isolated", "skip_src", "one_child"]
         if fl.get("division_bias"):
